@@ -3,6 +3,14 @@
 // TRUSTED PRELUDE: stand-ins for rust-bitcoin types (uninterpreted algebra only).
 use vstd::prelude::*;
 verus! {
+// [trusted:assumed-spec] u32::abs_diff / u64::abs_diff are the absolute difference (not used by the current tree; keeps rewrites of time arithmetic decidable)
+pub assume_specification[u32::abs_diff](a: u32, b: u32) -> (r: u32)
+    ensures r == if a >= b { a - b } else { b - a },
+;
+pub assume_specification[u64::abs_diff](a: u64, b: u64) -> (r: u64)
+    ensures r == if a >= b { a - b } else { b - a },
+;
+
 use vstd::std_specs::cmp::{OrdSpec, PartialOrdSpec};
 use core::cmp::Ordering;
 use std::collections::BTreeSet;
